@@ -89,11 +89,11 @@ Section C09.
   Theorem C09_is_cacheable_iff :
     forall e : exchange,
       is_cacheable status_known e = true <->
-      (let cc := hdr_value (e_resph e) (s2b "Cache-Control") in
+      (let cc := hdr_value_ci (e_resph e) (s2b "Cache-Control") in
        status_known (e_status e) = true /\
        ~ In (s2b "no-store") (directive_names cc) /\
        ~ In (s2b "private") (directive_names cc) /\
-       (hdr_value (e_resph e) (s2b "Expires") <> [] \/
+       (hdr_value_ci (e_resph e) (s2b "Expires") <> [] \/
         In (s2b "max-age") (directive_names cc) \/ In (s2b "s-maxage") (directive_names cc) \/
         In (e_status e) [200; 203; 204; 206; 300; 301; 404; 405; 410; 414; 501]%Z \/
         In (s2b "public") (directive_names cc))).
